@@ -23,7 +23,7 @@ import _cesium as C
 AREA = "cesium"
 HARNESS = ["zz_verif_store_test.go", "zz_verif_iter_test.go"]
 VERDICT = ["FrameIsView", "ViewOrdered", "InBounds", "AdjFwd", "AdjBwd", "AutoProgressFwd", "AutoProgressBwd",
-           "SeekFirstNoSkip", "SeekLastNoSkip", "TraversalOnce", "UnexpectedError"]
+           "SeekFirstNoSkip", "SeekLastNoSkip", "SeekFinds", "TraversalOnce", "UnexpectedError"]
 KINDS = ["ns1", "sub", "one", "x25", "whole", "over", "hop1", "hop2", "hop3"]
 
 
@@ -50,8 +50,8 @@ CONSTANTS
   MaxSeeks = %d
 INVARIANTS Emit
 CHECK_DEADLOCK FALSE
-""" % (depth, mode, ", ".join(str(x) for x in seekt), ", ".join('"%s"' % k for k in kinds),
-       ", ".join(str(x) for x in boundst), maxseeks)
+""" % (depth, mode, ", ".join(str(x + 2) for x in seekt), ", ".join('"%s"' % k for k in kinds),
+       ", ".join(str(x + 2) for x in boundst), maxseeks)
 
 
 TRACE_CFG = """SPECIFICATION TSpec
@@ -87,32 +87,46 @@ def layout_score(h):
 
 
 def gen_layouts(ctx, thorough):
-    """Store scripts from CesiumStoreGen (simulation): with deletes, and with early writer starts."""
+    """Store scripts from CesiumStoreGen (simulation): with deletes, with early writer starts, both.
+    Every prefix of a generated script is a script too, so each walk yields several layouts."""
     T = 4
-    n_sim = 400 if thorough else 150
-    hists = []
-    for tag, kw in (("del", dict(spec="GSpecSim", T=T, depth=14, deletes=True)),
-                    ("early", dict(spec="GSpecSim", T=T, depth=12, deletes=False, early=True)),
-                    ("earlydel", dict(spec="GSpecSim", T=T, depth=14, deletes=True, early=True))):
-        r = ctx.tlc(AREA, "CesiumStoreGen", "gl.cfg", files={"gl.cfg": C.gen_cfg(**kw)}, simulate="num=%d" % n_sim,
-                    depth=kw["depth"] + 2, workers=4, tag="lay_" + tag, timeout=900)
+    n_sim = 100 if thorough else 12
+    fam = (("del", dict(spec="GSpecSim", T=T, depth=14, deletes=True)),
+           ("early", dict(spec="GSpecSim", T=T, depth=12, deletes=False, early=True)),
+           ("earlydel", dict(spec="GSpecSim", T=T, depth=14, deletes=True, early=True)))
+    res = {}
+    errs = []
+
+    def one(tag, kw):
+        try:
+            res[tag] = ctx.tlc(AREA, "CesiumStoreGen", "gl_%s.cfg" % tag, files={"gl_%s.cfg" % tag: C.gen_cfg(**kw)},
+                               simulate="num=%d" % n_sim, depth=kw["depth"] + 2, workers=1, tag="lay_" + tag, timeout=1500)
+        except vlib.Inconclusive as e:
+            errs.append(str(e))
+
+    ctx.spec_copy(AREA)   # before the threads: the copy itself is not thread safe
+    ths = [threading.Thread(target=one, args=f) for f in fam]
+    for t in ths:
+        t.start()
+    for t in ths:
+        t.join()
+    if errs:
+        raise vlib.Inconclusive(errs[0])
+    best = {}
+    for tag, _ in fam:
         got = 0
-        for h in r.hists():
-            # every writer must be closed or closable: the harness closes open writers (drops buffers)
-            if not any(v for ch in ("D", "V") for v in h[-1]["st"]["cm"][ch].values()):
-                continue
-            hists.append((tag, h))
-            got += 1
+        for h in res[tag].hists():
+            for n in range(2, len(h) + 1):
+                p = h[:n]
+                if not any(v for ch in ("D", "V") for v in p[-1]["st"]["cm"][ch].values()):
+                    continue
+                k = layout_key(p)
+                if k not in best or len(best[k][2]) > n:
+                    best[k] = (layout_score(p), tag, p)
+                got += 1
         if got == 0:
             raise vlib.Inconclusive("no layouts generated (%s)" % tag)
-    seen = set()
-    uniq = []
-    for tag, h in hists:
-        k = layout_key(h)
-        if k in seen:
-            continue
-        seen.add(k)
-        uniq.append((layout_score(h), tag, h))
+    uniq = [best[k] for k in sorted(best)]
     rnd = random.Random(ctx.seed)
     rnd.shuffle(uniq)
     uniq.sort(key=lambda x: -x[0])
@@ -209,7 +223,7 @@ def to_events(trace, lay, tid):
     samples = lay["samples"][trace["chan"]]
     evs = []
     for e in trace["events"]:
-        if e.get("panic") or e.get("hang") or (e["c"] == "open" and e.get("err", "").startswith("open:")):
+        if e.get("panic") or e.get("hang") or e.get("guard") or (e["c"] == "open" and e.get("err", "").startswith("open:")):
             break
         evs.append(e)
     pts = set(s[0] for s in samples)
@@ -226,7 +240,7 @@ def to_events(trace, lay, tid):
                     "b": [rank[e["b"][0]], rank[e["b"][1]]], "chunk": min(e["chunk"], 1000),
                     "view": [rank[e["view"][0]], rank[e["view"][1]]],
                     "frame": [[rank[p[0]] if p[0] >= 0 else -1, p[1]] for p in e["frame"]],
-                    "valid": bool(e["valid"]), "err": e.get("err", "")})
+                    "valid": bool(e["valid"]), "ok": bool(e["ok"]), "err": e.get("err", "")})
     return out
 
 
